@@ -413,3 +413,54 @@ Definition stall_scenario (early loops : bool) (limit held0 : N) : res (N * bool
   | Err e => Err e
   | Panic => Panic
   end.
+
+(* ------------------------------------------------------------------ outbound transfer phases *)
+
+(* The same phase alphabet for the outbound side.  An outbound transfer is IN PROGRESS from the moment its slot is taken
+   (gossip) until the offer has ended: offer()/processOffer returned without starting a transfer (PGaveUp), or the transfer
+   goroutine has finished dialling and writing (PConnected = DialWithCid returned a stream, PReadDone = conn.Write and
+   conn.Close returned) or gave up (PGaveUp: shutdown, dial failure).
+   early = false: the code as it is (the deferred closure of processOffer reads notStartedUtp when it RUNS);
+   early = true : the closure gets the flag as an argument, i.e. evaluated at the defer statement: the Release happens when
+                  processOffer returns although the transfer goroutine has been started. *)
+Definition transfer_phases (t : transfer) : list phase :=
+  match t with
+  | TShutdown => [PGaveUp]
+  | TDialFail => [PGaveUp]
+  | TWriteFail => [PConnected; PReadDone]
+  | TSuccess => [PConnected; PReadDone]
+  end ++ [PRelease].                                  (* the goroutine's deferred call *)
+Definition process_offer_phases (early : bool) (r : reply) : list phase :=
+  match r with
+  | RAccepted t => (if early then [PRelease] else []) ++ transfer_phases t
+  | _ => [PGaveUp; PRelease]
+  end.
+Definition offer_phases (early : bool) (s : offer_step) : list phase :=
+  match s with
+  | SMarshalErr => [PGaveUp; PRelease]
+  | STalkErr => [PGaveUp; PRelease]
+  | SReply r => process_offer_phases early r
+  end.
+Definition out_phases (early : bool) (o : out_outcome) : list phase :=
+  match o with
+  | ONoPermit => []
+  | OGot PQueueFull => [PAcquire; PGaveUp; PRelease]
+  | OGot PShutdownQueued => [PAcquire]
+  | OGot (PWorker s) => PAcquire :: offer_phases early s
+  end.
+
+(* the scenario the harness plays: `held0` outbound slots taken, one accepted offer whose receiver never lets the uTP
+   stream come up (the transfer goroutine keeps dialling); free slots while it dials, free slots at the end *)
+Definition ostall_scenario (early : bool) (limit held0 : N) : res (N * N) :=
+  let t1 := it_start (out_phases early (OGot (PWorker (SReply (RAccepted TDialFail))))) in
+  let pre := if early then [0; 0]%nat else [0]%nat in
+  match isched_run limit pre (held0, [t1]) with
+  | Ok (sem1, ts1) =>
+      match isched_run limit (repeat 0%nat 6) (sem1, ts1) with
+      | Ok (sem2, _) => Ok (limit - sem1, limit - sem2)
+      | Err e => Err e
+      | Panic => Panic
+      end
+  | Err e => Err e
+  | Panic => Panic
+  end.
